@@ -518,6 +518,10 @@ func c04Expand(ops []c04Op) []c04Op {
 }
 
 func c04RunCase(in c04Input, base string, seq int) VCase {
+	return vsRetry(func(attempt int) VCase { return c04RunOnce(in, base, seq*2+attempt) })
+}
+
+func c04RunOnce(in c04Input, base string, seq int) VCase {
 	dir := filepath.Join(base, fmt.Sprintf("n%d", seq))
 	scratch := filepath.Join(base, fmt.Sprintf("s%d", seq))
 	os.MkdirAll(scratch, 0755)
@@ -550,6 +554,9 @@ func c04RunCase(in c04Input, base string, seq int) VCase {
 	for i, op := range ops {
 		res, err := r.step(op)
 		if res == 4 {
+			return VCase{Input: in, Key: key, Inconcl: fmt.Sprintf("step %d (%s): %v", i, op.Kind, err)}
+		}
+		if res == 2 && fail == "" && vsTransient(err) {
 			return VCase{Input: in, Key: key, Inconcl: fmt.Sprintf("step %d (%s): %v", i, op.Kind, err)}
 		}
 		if res == 2 {
@@ -601,7 +608,7 @@ func c04RunCase(in c04Input, base string, seq int) VCase {
 // cases in input order.
 func c04RunAll(w *vWriter, ins []c04Input, base string, run func(in c04Input, base string, seq int) VCase) {
 	out := make([]VCase, len(ins))
-	sem := make(chan struct{}, 6)
+	sem := make(chan struct{}, 8)
 	done := make(chan int, len(ins))
 	for i := range ins {
 		go func(i int) {
@@ -865,7 +872,7 @@ func TestVerif_C04(t *testing.T) {
 		return
 	}
 	ins := c04Corpus()
-	n := vN(12, 1500)
+	n := vN(8, 1500)
 	maxOps := 12
 	if vTier() == "thorough" {
 		maxOps = 30
